@@ -198,6 +198,10 @@ def write_overlay(extra=None):
                 ov[os.path.join(inter, f)] = dst
     if extra:
         ov.update(extra)
+    # development aid only (never set by MANIFEST commands): try a mutated copy of a source file
+    # without touching /repo, e.g. VERIF_MUTANT_OVERLAY='{"/repo/pkg/x/y.go": "/tmp/mut/y.go"}'
+    if os.environ.get("VERIF_MUTANT_OVERLAY"):
+        ov.update(json.loads(os.environ["VERIF_MUTANT_OVERLAY"]))
     path = os.path.join(ROOT, "harness", "overlay.json")
     new = json.dumps({"Replace": ov}, indent=1, sort_keys=True)
     if not os.path.exists(path) or open(path).read() != new:
